@@ -1416,13 +1416,16 @@ pub fn run(ctx: &Ctx) -> i32 {
         ("case", J::s("\"é€a\".trim_suffix(\"€a\"), \"FaLsE\".to_bool(), \" false\".to_bool(), \"a€é\".size()")),
         (
             "observed",
-            J::s(format!(
-                "{:?} {} {} {}",
-                <str as StringExt>::trim_suffix("é€a", "€a"),
-                <str as StringExt>::to_bool("FaLsE"),
-                <str as StringExt>::to_bool(" false"),
-                <str as StringExt>::size("a€é")
-            )),
+            J::s(catch_unwind(|| {
+                format!(
+                    "{:?} {} {} {}",
+                    <str as StringExt>::trim_suffix("é€a", "€a"),
+                    <str as StringExt>::to_bool("FaLsE"),
+                    <str as StringExt>::to_bool(" false"),
+                    <str as StringExt>::size("a€é")
+                )
+            })
+            .unwrap_or_else(|_| "<panicked>".to_string())),
         ),
     ]));
 
